@@ -1,4 +1,7 @@
-(* C02 -- what is still PINNED as reviewed text (target, expression), in source order: the statements of custom_bc
+(* C02 -- what is still PINNED as reviewed text (target, expression), in source order: the re-ordering block of
+   _return_results (1-D and 2-D) VERBATIM -- `for key in sort_keys: if key in params: params[key] = params[key][inverted]`
+   with no condition on ndim / shape / type, which is what wrapperG / wrapper2G model (every present entry is
+   gathered along its leading axis/axes) -- and the statements of custom_bc
    that mention a sort order (a local argsort of the sampled x_fit only; custom_bc is registered WITH the wrapper's
    sorting, runs its sub-fitter on the ascending x_fit and interpolates back onto the sorted x).
    tools/gen_orderflow.py re-extracts the same list from the current source on every run (gen_sites);
@@ -17,6 +20,8 @@ Import ListNotations.
 Open Scope string_scope.
 
 Definition expected_sites : list (string * string * string * string) := [
+  ("1d", "_return_results", "<block>", "if self._sort_order is not None: ;     for key in sort_keys: ;         if key in params: ;             params[key] = params[key][self._inverted_order] ;     if not skip_sorting: ;         baseline = _sort_array(baseline, sort_order=self._inverted_order)");
+  ("2d", "_return_results", "<block>", "if self._sort_order is not None: ;     for key in sort_keys: ;         if key in params: ;             params[key] = params[key][self._inverted_order] ;     if not skip_sorting: ;         baseline = _sort_array2d(baseline, sort_order=self._inverted_order)");
   ("1d", "custom_bc", "sort_order", "np.argsort(x_fit, kind='mergesort')");
   ("1d", "custom_bc", "x_fit", "x_fit[sort_order]");
   ("1d", "custom_bc", "y_fit", "np.array(y_sections)[sort_order]")
